@@ -98,7 +98,10 @@ func verifC16(nStreams, nBufs, maxIO, rounds int) {
 	recs := make([]*verifStreamRec, nStreams)
 	cancels := make([]context.CancelFunc, nStreams)
 	cancelled := make([]bool, nStreams)
-	for i := 0; i < nStreams; i++ {
+	pushed := 0
+	push := func() {
+		i := pushed
+		pushed++
 		rec := &verifStreamRec{}
 		recs[i] = rec
 		sctx, scancel := context.WithCancel(ctx)
@@ -122,6 +125,15 @@ func verifC16(nStreams, nBufs, maxIO, rounds int) {
 			rec.errs = errs
 		}, Buf: bufs}
 	}
+	// without rounds every request is queued before the sender starts; with rounds a symbolic
+	// number of them is, the others may be handed over later (round action 3)
+	first := nStreams
+	if rounds > 0 {
+		first = nondetIntIn(0, nStreams)
+	}
+	for pushed < first {
+		push()
+	}
 	go s.Run(ctx)
 	settle := func() {
 		if rounds == 0 {
@@ -132,13 +144,19 @@ func verifC16(nStreams, nBufs, maxIO, rounds int) {
 	}
 	settle()
 	for r := 0; r < rounds; r++ {
-		switch nondetIntIn(0, 2) {
+		switch nondetIntIn(0, 3) {
+		case 3:
+			if pushed < nStreams && ctx.Err() == nil { // the sender must not be used after shutdown
+				push()
+				verifYield()
+				verifReach("late-push")
+			}
 		case 1:
 			// cancel the oldest unanswered request: the sender is parked (every goroutine ran
 			// until it blocked), requests are taken in order, so this is the one it holds
 			held := -1
-			for i, rec := range recs {
-				if rec.calls == 0 {
+			for i := 0; i < pushed; i++ {
+				if recs[i].calls == 0 {
 					held = i
 					break
 				}
@@ -159,6 +177,7 @@ func verifC16(nStreams, nBufs, maxIO, rounds int) {
 	// shutdown
 	cancel()
 	settle()
+	recs, cancels = recs[:pushed], cancels[:pushed]
 	for i, rec := range recs {
 		verifAssert(rec.calls >= 1, "a flush request handed to the sender is never answered (no callback)")
 		verifAssert(rec.calls <= 1, "a flush request handed to the sender is answered more than once")
@@ -189,7 +208,7 @@ func VerifC16_2_2() { verifC16(2, 2, 5, 0) }
 
 // with harness-controlled time
 func VerifC16_T_1_1() { verifC16(1, 1, 3, 2) }
-func VerifC16_T_2_1() { verifC16(2, 1, 3, 2) }
+func VerifC16_T_2_1() { verifC16(2, 1, 3, 3) }
 func VerifC16_T_2_2() { verifC16(2, 2, 4, 3) }
 
 // VerifC16_Rollover: a connection is recycled after maxStreamsPerConnection requests. One
